@@ -10,6 +10,7 @@ import (
 	"fmt"
 	"runtime"
 	"sort"
+	"strconv"
 	"strings"
 	"sync"
 	"time"
@@ -96,6 +97,7 @@ type runner struct {
 	calls     []*call
 	started   bool
 	restarted bool
+	reconfs   int
 	quiet     time.Duration
 
 	faultMu sync.Mutex
@@ -491,6 +493,56 @@ func (r *runner) step(i int, st Step) {
 	case "SetFault":
 		// change a fake's fault script while running: st.Dst = connector id, st.Tag = knob, st.Err = value
 		r.world.SetFault(st.Dst, st.Tag, st.Err, st.N)
+	case "Reconfigure":
+		// live in-place reconfiguration of a processor: store the new config (generation st.Tag),
+		// then ask the lifecycle service to swap it in; st.Ms > 0 = the caller's context ends after st.Ms
+		gen := st.Tag
+		geni, _ := strconv.Atoi(gen)
+		proc := st.Proc
+		ms := st.Ms
+		r.mu.Lock()
+		r.reconfs++
+		rid := r.reconfs
+		r.mu.Unlock()
+		if st.K == 0 {
+			// unless the scenario is about the start-up instant (K = 1): the node has opened its processor
+			r.log.WaitFor(func() bool { return r.world.ProcOpens(proc) >= 1 }, time.Second)
+		}
+		r.log.Add("ReconfCall", "proc", proc, "gen", gen, "geni", geni, "rid", rid, "opened", r.world.ProcOpens(proc))
+		run := func() error {
+			inst, err := e.Procs.Get(r.ctx, proc)
+			if err != nil {
+				return err
+			}
+			cfg := processor.Config{Settings: map[string]string{"gen": gen}, Workers: inst.Config.Workers}
+			if _, err := e.Procs.UpdateWhileRunning(r.ctx, proc, "verif-proc", cfg); err != nil {
+				return err
+			}
+			cctx := r.ctx
+			if ms > 0 {
+				var cancel context.CancelFunc
+				cctx, cancel = context.WithTimeout(r.ctx, time.Duration(ms)*time.Millisecond)
+				defer cancel()
+			}
+			if e.V1 != nil {
+				return e.V1.ReconfigureProcessor(cctx, PipelineID, proc)
+			}
+			return e.V2.ReconfigureProcessor(cctx, PipelineID, proc)
+		}
+		c := &call{name: "Reconfigure", done: make(chan struct{})}
+		r.mu.Lock()
+		r.calls = append(r.calls, c)
+		r.mu.Unlock()
+		go func() {
+			err := run()
+			c.err = err
+			r.log.Add("ReconfRet", "proc", proc, "gen", gen, "geni", geni, "rid", rid, "err", engine.ErrClass(err))
+			close(c.done)
+		}()
+		if st.N == 0 {
+			// by default wait (bounded) for the outcome so that later steps are "after the switch"
+			waitCall(c, 3*time.Second)
+		}
 	case "Wait":
 		r.async("WaitPipeline", func() error { return e.LC.WaitPipeline(PipelineID) })
 	case "Flush":
